@@ -262,12 +262,18 @@ func WindowFrameSet(partition Partition, expr parser.AnalyticClause) []WindowFra
 		case parser.PRECEDING:
 			if !framePosition.Unbounded.IsEmpty() {
 				idx = 0
+			} else if current < framePosition.Offset {
+				// before the first row of the partition
+				idx = -1
 			} else {
 				idx = current - framePosition.Offset
 			}
 		case parser.FOLLOWING:
 			if !framePosition.Unbounded.IsEmpty() {
 				idx = length - 1
+			} else if length-current <= framePosition.Offset {
+				// after the last row of the partition
+				idx = length
 			} else {
 				idx = current + framePosition.Offset
 			}
@@ -324,6 +330,9 @@ func WindowFrameSet(partition Partition, expr parser.AnalyticClause) []WindowFra
 }
 
 func windowValues(ctx context.Context, scope *ReferenceScope, frame WindowFrame, partition Partition, expr parser.AnalyticFunction, valueCache map[int]value.Primary) ([]value.Primary, error) {
+	if frame.High < frame.Low {
+		return []value.Primary{}, nil
+	}
 	values := make([]value.Primary, 0, frame.High-frame.Low+1)
 
 	anScope := scope.CreateScopeForAnalytics()
